@@ -375,6 +375,9 @@ def run(facts, rep, tier, ctx):
     n = c05.child_path_rules(facts, A, wa, D) + c05.is_kind_rules(facts, A, wa, D) + c05.walk_rules(facts, A, wa, D) + \
         c05.memory_listing_rules(facts, A, wa, D)
     rep.floor("observer obligations on the async world", n, 18)
+    from . import c04 as _c04
+    _c04.read_to_string_rules(facts, A, wa, D, "R04.5")
+    _c04.session_start_rules(facts, A, wa, D, "R04.2")
     c12.run_world(facts, A, wa, {"fallible": 25, "with_path": 25})
     c20.run_world(facts, A, wa, {"results": 20, "err_edges": 5, "kind_arms": 4})
     n = poll_next_rules(facts, rep, D)
